@@ -30,6 +30,20 @@ const EXTRA_EXAMPLES: &[(&str, &[&str])] = &[
     ("XADD", &["k", "*", "f", "v"]), ("XTRIM", &["k", "MAXLEN", "~", "1"]), ("XREADGROUP", &["GROUP", "g", "c", "STREAMS", "k", "0-0"]), ("XGROUP", &["SETID", "k", "g", "1-1"]),
     ("EVAL", &["return redis.call('GET', KEYS[1])", "1", "k"]), ("EVAL", &["return ARGV[1]", "0", "5"]), ("SLOWLOG", &["RESET"]), ("XCLAIM", &["k", "g", "c", "0", "1-1", "FORCE"]),
     ("ZRANGE", &["k", "0", "-1", "WITHSCORES"]), ("LPUSH", &["k", "a", "b"]), ("BLPOP", &["k", "k2", "1"]),
+    // ranges given the wrong way round (a sub-agent's demo met a panic in XPENDING with start > end), on every range command
+    ("XPENDING", &["k", "g", "+", "-", "10"]), ("XPENDING", &["k", "g", "5-0", "1-0", "10"]), ("XPENDING", &["k", "g", "-", "+", "10", "c"]), ("XPENDING", &["k", "g", "5-0", "1-0", "10", "c"]),
+    ("XRANGE", &["k", "+", "-"]), ("XRANGE", &["k", "5-0", "1-0"]), ("XREVRANGE", &["k", "-", "+"]), ("XREVRANGE", &["k", "1-0", "5-0"]), ("XRANGE", &["k", "5-0", "1-0", "COUNT", "1"]),
+    ("ZRANGEBYSCORE", &["k", "1", "0"]), ("ZREVRANGEBYSCORE", &["k", "0", "1"]), ("ZCOUNT", &["k", "1", "0"]), ("ZRANGE", &["k", "-1", "0"]), ("ZRANGE", &["k", "2", "1"]), ("ZREVRANGE", &["k", "2", "1"]),
+    ("LRANGE", &["k", "2", "0"]), ("LTRIM", &["k", "2", "0"]), ("GETRANGE", &["k", "5", "1"]), ("ZRANGEBYSCORE", &["k", "(1", "(1"]), ("ZRANGEBYSCORE", &["k", "+inf", "-inf"]),
+    // the remaining forms of the consumer-group and administrative commands
+    ("XAUTOCLAIM", &["k", "g", "c", "0", "0-0", "COUNT", "1"]), ("XINFO", &["STREAM", "k"]), ("XINFO", &["CONSUMERS", "k", "g"]), ("XGROUP", &["DESTROY", "k", "g"]),
+    ("XGROUP", &["CREATECONSUMER", "k", "g", "c2"]), ("XGROUP", &["DELCONSUMER", "k", "g", "c"]), ("XCLAIM", &["k", "g", "c2", "0", "1-1", "JUSTID"]),
+    ("XREADGROUP", &["GROUP", "g", "c", "NOACK", "STREAMS", "k", ">"]), ("XREADGROUP", &["GROUP", "g", "c", "COUNT", "1", "STREAMS", "k", "1-1"]), ("XACK", &["k", "g", "1-1", "1-1", "2-2"]),
+    ("XREAD", &["STREAMS", "k", "$"]), ("XTRIM", &["k", "MAXLEN", "=", "0"]), ("XADD", &["k", "MAXLEN", "1", "*", "f", "v"]), ("XDEL", &["k", "1-1", "1-1"]),
+    ("SET", &["k", "v", "XX", "GET"]), ("SET", &["k", "v", "NX", "EX", "100"]), ("LPOP", &["k", "2"]), ("RPOP", &["k", "2"]), ("SPOP", &["k"]), ("SRANDMEMBER", &["k"]), ("ZPOPMIN", &["k"]),
+    ("SCAN", &["0", "TYPE", "string"]), ("CLIENT", &["SETNAME", "x"]), ("CLIENT", &["GETNAME"]), ("CLIENT", &["ID"]), ("CLIENT", &["KILL", "127.0.0.1:1"]), ("SCRIPT", &["LOAD", "return 1"]),
+    ("SCRIPT", &["EXISTS", "e0e1f9fabfc9d4800c877a703b823ac0578ff8db"]), ("INFO", &["server"]), ("MEMORY", &["STATS"]), ("MEMORY", &["DOCTOR"]), ("COMMAND", &["COUNT"]), ("SLOWLOG", &["LEN"]),
+    ("CONFIG", &["GET", "*"]), ("ZADD", &["k", "1", "a", "2", "b"]), ("ZINCRBY", &["k", "-1", "a"]), ("HSET", &["k", "f", "v", "g", "w"]), ("PEXPIRE", &["k", "1"]), ("EXPIRE", &["k", "-1"]),
 ];
 
 pub fn numeric_values(thorough: bool) -> Vec<(&'static str, Vec<u8>)> {
@@ -37,6 +51,9 @@ pub fn numeric_values(thorough: bool) -> Vec<(&'static str, Vec<u8>)> {
         ("0", b"0".to_vec()), ("-1", b"-1".to_vec()), ("i32max+1", b"2147483648".to_vec()), ("i64max", b"9223372036854775807".to_vec()), ("i64max+1", b"9223372036854775808".to_vec()),
         ("i64min", b"-9223372036854775808".to_vec()), ("u64max", b"18446744073709551615".to_vec()), ("u64max+1", b"18446744073709551616".to_vec()),
         ("1e308", b"1e308".to_vec()), ("inf", b"inf".to_vec()), ("nan", b"nan".to_vec()), ("empty", b"".to_vec()),
+        // just below a limit: passes the check at the command and overflows where it is used later (a time to live that fits
+        // the monotonic clock and overflows when added to the wall clock at the next save)
+        ("i64max-1e9", b"9223372035854775807".to_vec()), ("i64max-1e12", b"9223371036854775807".to_vec()), ("i64max/1000", b"9223372036854775".to_vec()), ("u64max/1000", b"18446744073709551".to_vec()),
     ];
     if thorough {
         v.extend(vec![
@@ -267,6 +284,37 @@ fn seed_state(h: &mut Harness, state: usize) -> Result<(), String> {
     Ok(())
 }
 
+/// the follow-up battery: returns the command during which the server exited, if it did
+fn follow_up(h: &mut Harness) -> Result<Option<String>, String> {
+    let battery: Vec<Vec<&str>> = vec![
+        vec!["SELECT", "0"], vec!["SAVE"], vec!["TTL", "k"], vec!["PTTL", "k"], vec!["TYPE", "k"], vec!["EXISTS", "k"], vec!["KEYS", "*"], vec!["SCAN", "0", "COUNT", "100"], vec!["DBSIZE"], vec!["RANDOMKEY"],
+        vec!["GET", "k"], vec!["STRLEN", "k"], vec!["LRANGE", "k", "0", "-1"], vec!["SMEMBERS", "k"], vec!["HGETALL", "k"], vec!["ZRANGE", "k", "0", "-1", "WITHSCORES"], vec!["ZRANGEBYSCORE", "k", "-inf", "+inf"],
+        vec!["XRANGE", "k", "-", "+"], vec!["XLEN", "k"], vec!["XINFO", "STREAM", "k"], vec!["XINFO", "GROUPS", "k"], vec!["XINFO", "CONSUMERS", "k", "g"], vec!["XPENDING", "k", "g"], vec!["XPENDING", "k", "g", "-", "+", "10"],
+        vec!["MEMORY", "USAGE", "k"], vec!["INFO"], vec!["INCR", "k"], vec!["APPEND", "k", "x"], vec!["ZINCRBY", "k", "1", "a"], vec!["ZADD", "k", "3", "a"], vec!["ZREM", "k", "a"], vec!["EXPIRE", "k", "100"], vec!["PERSIST", "k"],
+        vec!["SAVE"], vec!["PING"],
+    ];
+    for cmd in battery {
+        if h.srv.as_ref().map(|s| s.is_dead()).unwrap_or(true) {
+            return Ok(Some("(before the follow-up)".into()));
+        }
+        if h.aux.as_ref().map(|c| !c.is_open()).unwrap_or(true) {
+            h.ensure()?;
+        }
+        let srv = h.srv.as_ref().unwrap();
+        let aux = h.aux.as_mut().unwrap();
+        match srv.call(aux, &cmd) {
+            Ok(_) => {}
+            Err(e) => {
+                if srv.is_dead() {
+                    return Ok(Some(cmd.join(" ")));
+                }
+                return Err(format!("follow-up {}: {:?}", cmd.join(" "), e));
+            }
+        }
+    }
+    Ok(None)
+}
+
 fn run_case(w: &mut W, c: &Case) -> Result<(String, Value), String> {
     let force_fresh = w.h.srv.as_ref().map(|s| s.is_dead()).unwrap_or(true);
     w.h.ensure()?;
@@ -324,6 +372,18 @@ fn run_case(w: &mut W, c: &Case) -> Result<(String, Value), String> {
                 detail["sentinel"] = json!({"query": q.join(" "), "expected": resp::show(&want), "actual": resp::show(&got)});
                 break;
             }
+        }
+    }
+    // what the command left behind must not bring the server down later: everything stored under k is saved, listed and
+    // read in full (a time to live that a later SAVE cannot represent, a counter that underflows at the next update, ...)
+    if outcome == "ok" && c.raw.is_none() && !paused && !matches!(c.name.as_str(), "CLIENT" | "MONITOR" | "REPLICAOF" | "SLAVEOF") {
+        if let Some(cmd) = follow_up(&mut w.h)? {
+            outcome = "server-exited-later".into();
+            detail["later_command"] = json!(cmd);
+            detail["panic"] = json!(crate::srv::LAST_PANIC.lock().unwrap().clone());
+            w.sentinel_ready = false;
+            cli.discard();
+            return Ok((outcome, detail));
         }
     }
     cli.discard();
